@@ -52,6 +52,9 @@ public:
     bool is_integer() const { return (id >> 1) == (int)Constants::INT; }
     bool is_scalar() const { return (id >> 1) == (int)Constants::SCALAR; }
     bool is_location() const { return (id >> 1) == (int)Constants::LOCATION; }
+    /* constructed types record the frame they are built over and its size AT CONSTRUCTION (= the arity of the type):
+       10000 + 1024 * kind-code + 16 * frame + arity */
+    static type_t verif_over_frame(int code, int frame_which, int arity) { return type_t(10000 + 1024 * code + 16 * frame_which + arity); }
 #else
     static type_t create_primitive(kind_t k) { return type_t(1000 + (int)k); }
 #endif
@@ -61,8 +64,12 @@ public:
 };
 #ifdef VERIF_FRAME_ARENA
 typedef int verif_name; /* identity of an identifier spelling */
+#ifndef VERIF_NSYMS
 #define VERIF_NSYMS 8
+#endif
+#ifndef VERIF_NFRAMES
 #define VERIF_NFRAMES 8
+#endif
 struct verif_symrec { verif_name name; int type; int frame; void* user; };
 extern verif_symrec verif_symtab[VERIF_NSYMS];
 extern int verif_nsyms;
@@ -86,7 +93,10 @@ public:
 };
 /* frame_t: resolve(name, out) is a partial map name -> symbol given by ghost tables */
 #ifdef VERIF_FRAME_ARENA
-struct verif_framerec { int parent; int nsym; int sym[3]; };
+#ifndef VERIF_FRAME_CAP
+#define VERIF_FRAME_CAP 3
+#endif
+struct verif_framerec { int parent; int nsym; int sym[VERIF_FRAME_CAP]; };
 extern verif_framerec verif_frames[VERIF_NFRAMES];
 extern int verif_nframes;
 #endif
@@ -104,7 +114,7 @@ public:
     }
     symbol_t add_symbol(verif_name name, type_t type, position_t, void* user = nullptr)
     {
-        __CPROVER_assert(which > 0 && verif_nsyms < VERIF_NSYMS && verif_frames[which - 1].nsym < 3, "stub: symbol arena capacity");
+        __CPROVER_assert(which > 0 && verif_nsyms < VERIF_NSYMS && verif_frames[which - 1].nsym < VERIF_FRAME_CAP, "stub: symbol arena capacity");
         verif_symtab[verif_nsyms].name = name; verif_symtab[verif_nsyms].type = type.id; verif_symtab[verif_nsyms].frame = which; verif_symtab[verif_nsyms].user = user;
         verif_frames[which - 1].sym[verif_frames[which - 1].nsym] = verif_nsyms;
         verif_frames[which - 1].nsym++;
@@ -117,13 +127,32 @@ public:
         return symbol_t(verif_frames[which - 1].sym[i]);
     }
     uint32_t get_size() const { return (uint32_t)verif_frames[which - 1].nsym; }
+    bool contains(verif_name name) const /* this frame only (real: get_index_of(name).has_value()) */
+    {
+        for (int i = 0; i < VERIF_FRAME_CAP; i++) {
+            if (i < verif_frames[which - 1].nsym && verif_symtab[verif_frames[which - 1].sym[i]].name == name) return true;
+        }
+        return false;
+    }
+    void add(symbol_t s)
+    {
+        __CPROVER_assert(which > 0 && verif_frames[which - 1].nsym < VERIF_FRAME_CAP, "stub: frame capacity");
+        verif_frames[which - 1].sym[verif_frames[which - 1].nsym] = s.id;
+        verif_frames[which - 1].nsym++;
+    }
+    void add(frame_t f)
+    {
+        for (int i = 0; i < VERIF_FRAME_CAP; i++) {
+            if (i < verif_frames[f.which - 1].nsym) add(symbol_t(verif_frames[f.which - 1].sym[i]));
+        }
+    }
     /* contract proved for the real frame_t (c07_resolve + induction over the chain): the nearest frame wins, the last declaration in it */
     bool verif_resolve(verif_name name, symbol_t& out) const
     {
         int f = which;
         for (int depth = 0; depth < VERIF_NFRAMES && f > 0; depth++) {
-            for (int i = verif_frames[f - 1].nsym - 1; i >= 0; i--) {
-                if (verif_symtab[verif_frames[f - 1].sym[i]].name == name) { out = symbol_t(verif_frames[f - 1].sym[i]); return true; }
+            for (int i = VERIF_FRAME_CAP - 1; i >= 0; i--) {
+                if (i < verif_frames[f - 1].nsym && verif_symtab[verif_frames[f - 1].sym[i]].name == name) { out = symbol_t(verif_frames[f - 1].sym[i]); return true; }
             }
             f = verif_frames[f - 1].parent;
         }
@@ -211,7 +240,7 @@ public:
         for (const T* p = b; p != e; ++p) push_back(*p);
     }
     T& operator[](size_t i) { __CPROVER_assert(i < n, "stub: vector index < size()"); return elems[i]; }
-    const T& operator[](size_t i) const { __CPROVER_assert(i < n, "stub: vector index < size()"); return elems[i]; }
+    T operator[](size_t i) const { __CPROVER_assert(i < n, "stub: vector index < size()"); return elems[i]; } /* by value: CBMC mis-types const T& returns */
 };
 template <typename T, typename A, typename B, typename C>
 inline T* make_shared(A a, B b, C c) { return new T(a, b, c); }
